@@ -148,3 +148,11 @@ def _order(series, extra):
         bounded=dict(bound='5 timestamp scripts x every history of <= 5 (thorough: 7) actions over {3 threads log, one pass, full drain}', form='b'),
         dropped=[], trusted=['log calls and backend passes do not overlap in time (each action completes before the next starts): concurrent overlap is the contract units (BQ.*, UQ.*, LEM.order)'], min_obligations=1, timeout=1500)
 UNITS += [_order('default limits', []), _order('soft = hard limit = 2', ['SMALL_LIMITS'])]
+def _blocking(series, extra):
+    return dict(
+        name='LG.blocking_history[%s]' % series, primary='C09', props={'C09', 'C03'}, kind='L', funcs=[], enforce=None,
+        desc='a %s blocking queue through the real pipeline: one real producer thread logs on command, backend passes run only while it is blocked; every history of statements of several sizes (one filling the queue but for 3 bytes): each call returns after a bounded number of passes, everything delivered once and in order' % series,
+        native=dict(cpp='blocking_history.cpp', file='include/quill/Logger.h', function='LoggerImpl::log_statement (blocking retry loop), BoundedSPSCQueue::{prepare_write,commit_read}, UnboundedSPSCQueue::_handle_full_queue', defs_quick=['LEN=5'] + extra, defs_thorough=['LEN=7'] + extra),
+        bounded=dict(bound='every history of <= 5 (thorough: 7) statements over 4 (unbounded: 5) sizes; queue capacity 1 KiB (unbounded: up to 2 KiB); the OS schedules the producer thread', form='b'),
+        dropped=[], trusted=['one OS schedule per history for the producer thread; the bound of 50 passes per call is generous (a healthy run needs 1 or 2)'], min_obligations=1, timeout=1500)
+UNITS += [_blocking('bounded', []), _blocking('unbounded', ['SERIES_UNBOUNDED'])]
